@@ -28,8 +28,8 @@ ASSUMPTIONS = ['A-IO: the whole file reaches from_raw_buffer in one chunk (bnp.o
                'index expressions are resolved by NumPy on np.arange(n) in the harness: that is the meaning of "NumPy-style indexing"',
                'eager (parsed) tables: text -> value -> text is the identity except for int columns (re-spelled canonically)']
 PARTIAL = ['C04_delimited_end_to_end (file bytes -> written bytes satisfy the byte-level Spec, all programs without replacement) is proved '
-           'for LF tab-delimited files (BED/BED6/narrowPeak/VCF); for CRLF delimited files it is refuted for the code at HEAD '
-           '(C04_crlf_selection_pinned_refuted). For SAM/FASTQ/FASTA/BAM the hypotheses of the general theorems (Inv, view = gview) are '
+           'for LF tab-delimited files (BED/BED6/narrowPeak/VCF) and C04_bam_end_to_end for BAM selections; for CRLF delimited files it is refuted for the code at HEAD '
+           '(C04_crlf_selection_pinned_refuted). For SAM/FASTQ/FASTA the hypotheses of the general theorems (Inv, view = gview) are '
            'checked by computation on every generated file (Corr.C04.hyp_ok) instead of being proved for all files',
            'programs with replaced fields: proved at the level of the abstraction (C04_program_write: every non-replaced field is read off '
            'the row\'s own original bytes); the last step to the byte-level Spec is carried by the correspondence only',
